@@ -54,6 +54,10 @@ def selftest(pid, repo):
         except OSError: pass
 
 
+import sys as _sys
+_sys.setrecursionlimit(50000)      # the interpreter recurses once per interpreted frame and expression level; the repository recurses too
+
+
 def main(argv=None):
     try:
         import signal
